@@ -22,6 +22,11 @@ RULE = ("histories = one legacy grid (class, w, h, torus, random placement of ag
         "get/iter_neighborhood, get/iter_neighbors, get_cell_list_contents calls on that one instance; the first "
         "cases enumerate all (w,h)<=3x3 x torus x pos x r<=4 x moore x include_center exhaustively in shuffled order, "
         "the rest are random with w,h<=6, r<=max(w,h)+1 and queries revisiting a position with one argument changed; "
+        "a scale stream (a dimension of 129..700 or beyond 2^16, cells with hundreds of agents, several hundred distinct "
+        "queries then repeats, pairs of cells that alias under packed keys, long path/cycle graphs); argument forms: "
+        "Python ints, numpy int64/int32, numpy-bool / 0-1 flags, cell lists as list/tuple/generator/iterator/map, "
+        "abandoned and interleaved iterators; agents of plain, falsy, iterable and sequence-like user subclasses; every "
+        "third history on a user subclass of the grid class; "
         "non-trivial = at least 2 queries of which one has a non-empty answer; distinct = by SHA1 of the history")
 TRUSTED_BASE = [
     "Coq 8.16.1 kernel (coqc); vm_compute used for finite facts and for evaluating the model in the correspondence",
@@ -32,7 +37,7 @@ TRUSTED_BASE = [
     "Uint63 primitive hash only in scratch Cases files, never under a theorem",
 ]
 ASSUMPTIONS = [
-    "positions, radii are Python ints; radius >= 1; NetworkGrid graphs are simple undirected graphs with int node ids",
+    "positions and radii are integers (Python or numpy); radius >= 1; NetworkGrid graphs are simple undirected graphs with int node ids",
     "hex tori with odd width (no wrapped hexagonal tiling exists) are run through the model correspondence only, not the oracle",
     "order of the returned cells is not part of the statement: compared as sorted sets plus a duplicate flag",
 ]
@@ -82,7 +87,7 @@ def _mk_case(rng, cls, w, h, torus, qs, extra_ops=()):
     for (x, y, moore, ic, r) in qs:
         kind = rng.choice(["nbhd", "nbhd", "nbrs", "nbrs"])
         # "abandon" = an iterator that is started and dropped before the query proper; "np" = numpy integer arguments
-        form = rng.choice(["get", "iter", "get", "iter", "abandon", "np", "np32", "npflags"])
+        form = rng.choice(["get", "iter", "get", "iter", "abandon", "np", "np32", "npflags", "interleave"])
         ops.append([kind, x, y, moore, ic, r, form])
     ops += list(extra_ops)
     return {"cls": cls, "w": w, "h": h, "torus": torus, "agents": agents, "ops": ops}
@@ -93,7 +98,7 @@ def _gen_large(rng, tier):
     cells holding many agents, histories of several hundred distinct queries followed by repeats (caches with limits),
     long path/cycle graphs.  The model's cost depends on the radius, not on the grid size."""
     cases = []
-    forms = ["get", "iter", "get", "iter", "abandon", "np", "np32", "npflags"]
+    forms = ["get", "iter", "get", "iter", "abandon", "np", "np32", "npflags", "interleave"]
     for _ in range(36 if tier == "quick" else 700):
         shape = rng.randrange(3)
         big = rng.choice([129, 200, 255, 256, 257, 258, 259, 300, 513, 700])
@@ -643,6 +648,16 @@ def run_impl(case):
                     it = g.iter_neighborhood((x, y), moore, ic, r) if kind == "nbhd" else g.iter_neighbors((x, y), moore, ic, r)
                     next(it, None)
                     del it
+                pending = None
+                if form == "interleave" and inb:
+                    # an iterator of this very query is started, other queries run (and warm / read the caches), then it
+                    # is finished: its answer must be the same as that of an uninterrupted call
+                    pending = g.iter_neighborhood((x, y), moore, ic, r) if kind == "nbhd" else g.iter_neighbors((x, y), moore, ic, r)
+                    head = [v for _, v in zip(range(1), pending)]
+                    ox, oy = (x + 1) % w, (y + (1 if w == 1 else 0)) % h
+                    g.get_neighborhood((ox, oy), not moore, ic, r)
+                    g.get_neighborhood((x, y), moore, not ic, r)
+                    list(g.iter_neighbors((ox, oy), moore, True, 1))
                 if form in ("np", "np32", "npflags"):
                     import numpy as np
 
@@ -654,7 +669,10 @@ def run_impl(case):
                 else:
                     qpos, pr = (x, y), r
                 if kind == "nbhd":
-                    res = g.get_neighborhood(qpos, moore, ic, pr) if form in ("get", "np", "np32", "npflags") else list(g.iter_neighborhood(qpos, moore, ic, pr))
+                    if pending is not None:
+                        res = head + list(pending)
+                    else:
+                        res = g.get_neighborhood(qpos, moore, ic, pr) if form in ("get", "np", "np32", "npflags") else list(g.iter_neighborhood(qpos, moore, ic, pr))
                     cells = [tuple(int(v) for v in c) for c in res]
                     obs.append(_obs_cells(cells))
                     if inb:
@@ -666,7 +684,10 @@ def run_impl(case):
                             failures.append({"key": f"C09/{case['cls']}/neighborhood/wrong-cells", "op": i,
                                              "what": f"get_neighborhood({(x, y)}, moore={moore}, include_center={ic}, radius={r}) on {w}x{h} torus={torus}: got {sorted(cells)}, the cells in range are {sorted(exp)}"})
                 else:
-                    res = g.get_neighbors(qpos, moore, ic, pr) if form in ("get", "np", "np32", "npflags") else list(g.iter_neighbors(qpos, moore, ic, pr))
+                    if pending is not None:
+                        res = head + list(pending)
+                    else:
+                        res = g.get_neighbors(qpos, moore, ic, pr) if form in ("get", "np", "np32", "npflags") else list(g.iter_neighbors(qpos, moore, ic, pr))
                     got = [a._verif_id for a in res]
                     obs.append(_obs_agents(got))
                     if inb:
